@@ -95,22 +95,23 @@ Qed.
 Lemma add_domain_ok : forall t l d, tab_ok t -> tab_ok (fst (t_add_domain t l d)) /\ tab_le t (fst (t_add_domain t l d)).
 Proof.
   intros t l d H. unfold t_add_domain.
+  destruct (amem Nat.eq_dec (t_dom t) l); cbn; [split; [assumption | apply tab_le_refl]|].
   destruct (add_node_label_ok t l H) as [A B].
-  destruct (amem Nat.eq_dec (t_dom (t_add_node_label t l)) l); cbn; [split; assumption|].
   split; [destruct A; split; assumption | exact B].
 Qed.
 
 Lemma add_factor_ok : forall t l f, tab_ok t -> tab_ok (fst (t_add_factor t l f)) /\ tab_le t (fst (t_add_factor t l f)).
 Proof.
   intros t l f H. unfold t_add_factor.
-  destruct (negb (el_term l)); [cbn; split; [assumption | apply tab_le_refl]|].
+  assert (ID : tab_ok t /\ tab_le t t) by (split; [assumption | apply tab_le_refl]).
+  destruct (negb (el_term l)); [exact ID|].
+  destruct (label_conflict t l); [exact ID|].
+  destruct (amem Nat.eq_dec (t_fac t) (el_name l)); [exact ID|].
+  destruct (negb (Nat.eqb (length (f_doms f)) (length (el_ty l)))); [exact ID|].
+  destruct (negb (fac_doms_ok t (el_ty l) (f_doms f))); [exact ID|].
   destruct (t_add_edge_label t l) as [t' r] eqn:E.
   destruct (add_edge_label_spec _ _ _ _ E H) as (A & B & _).
-  destruct r as [| |k]; try (cbn; split; assumption);
-    (destruct (amem Nat.eq_dec (t_fac t') (el_name l)); [cbn; split; assumption|];
-     destruct (negb (Nat.eqb (length (f_doms f)) (length (el_ty l)))); [cbn; split; assumption|];
-     destruct (negb (fac_doms_ok t' (el_ty l) (f_doms f))); cbn; [split; assumption|];
-     split; [destruct A; split; assumption | exact B]).
+  destruct r as [| |k]; cbn; split; try assumption; destruct A; split; assumption.
 Qed.
 
 Lemma new_finite_factor_ok : forall t n sh tag, tab_ok t ->
